@@ -52,6 +52,9 @@ impl Sub for Trapdoor {
     fn max_shrink_iters(&self) -> u32 {
         16
     }
+    fn batch(&self) -> usize {
+        1
+    }
     fn strategy(&self, _env: &Env) -> BoxedStrategy<KeyCase> {
         (prop_oneof![4 => Just(512usize), 1 => Just(1024usize)], gen::seed_strategy()).prop_map(|(n, s)| KeyCase { n, seed: seed_hex(&s), gram_schmidt: false }).boxed()
     }
